@@ -60,6 +60,7 @@ package utils
 //@ spec func cvReader(m any) bool = !cvBytes(m) && !is(m, [][]byte) && !is(m, string) && impl(m, io.Reader)
 //@ func ToReader
 //@   params message
+//@   locals readers b
 //@   loop 0 invariant len(readers) == rangeindex + 1 && -1 <= rangeindex && rangeindex < len(as(message, [][]byte))
 //@   ensures bytes: implies(cvBytes(message), result1 == nil && result0 != nil && !rbad(result0) && seqeq(rcontent(result0), content(as(message, []byte))))
 //@   ensures vec: implies(cvVec(message), result1 == nil && result0 != nil)
@@ -109,6 +110,7 @@ package utils
 //@ spec func tbOther(m any) bool = !tbBytes(m) && !is(m, [][]byte) && !is(m, string) && !is(m, *bytes.Buffer) && !is(m, *bytes.Reader) && !is(m, *strings.Reader)
 //@ func ToBytes
 //@   params message
+//@   locals buffer b buffer err
 //@   loop 0 invariant -1 <= rangeindex && rangeindex < len(as(message, [][]byte))
 //@   requires implies(tbStable(message) || (tbOther(message) && impl(message, io.Reader)), rwf(message))
 //@   may_panic true
